@@ -847,3 +847,167 @@ func paramOf(fn *ssa.Function, name string) ssa.Value {
 	}
 	return nil
 }
+
+// paramAlias matches the named parameter or a load of the heap cell it was spilled to because a closure captures it.
+func paramAlias(fn *ssa.Function, name string) vpred {
+	p := paramOf(fn, name)
+	cells := map[ssa.Value]bool{}
+	if p != nil {
+		for _, ref := range *p.Referrers() {
+			if st, ok := ref.(*ssa.Store); ok && st.Val == p {
+				if al, ok := st.Addr.(*ssa.Alloc); ok {
+					cells[al] = true
+				}
+			}
+		}
+	}
+	return func(v ssa.Value) bool {
+		if v == p && p != nil {
+			return true
+		}
+		u, ok := v.(*ssa.UnOp)
+		return ok && u.Op == token.MUL && cells[u.X]
+	}
+}
+
+// ---- path enumeration with correlated-branch pruning (one loop iteration / first iteration) ----
+
+// evalOnPath evaluates boolean / small integer SSA values along a concrete path: phis are resolved through the
+// predecessor actually taken, branch outcomes recorded in known are reused, constants fold through !, ==, !=, <, >.
+func evalOnPath(v ssa.Value, path []pathStep, known map[ssa.Value]bool) (val int64, ok bool) {
+	if b, has := known[v]; has {
+		if b {
+			return 1, true
+		}
+		return 0, true
+	}
+	switch t := v.(type) {
+	case *ssa.Const:
+		if b, isB := constBool(t); isB {
+			if b {
+				return 1, true
+			}
+			return 0, true
+		}
+		return constIntOf(t)
+	case *ssa.UnOp:
+		if t.Op == token.NOT {
+			x, ok := evalOnPath(t.X, path, known)
+			if !ok {
+				return 0, false
+			}
+			return 1 - x, true
+		}
+	case *ssa.Phi:
+		blk := t.Block()
+		for i := len(path) - 1; i >= 0; i-- {
+			if path[i].Block == blk {
+				if i == 0 {
+					return 0, false
+				}
+				pred := path[i-1].Block
+				for j, p := range blk.Preds {
+					if p == pred {
+						return evalOnPath(t.Edges[j], path[:i], known)
+					}
+				}
+				return 0, false
+			}
+		}
+	case *ssa.BinOp:
+		x, okx := evalOnPath(t.X, path, known)
+		y, oky := evalOnPath(t.Y, path, known)
+		if okx && oky {
+			b2i := func(b bool) int64 {
+				if b {
+					return 1
+				}
+				return 0
+			}
+			switch t.Op {
+			case token.EQL:
+				return b2i(x == y), true
+			case token.NEQ:
+				return b2i(x != y), true
+			case token.LSS:
+				return b2i(x < y), true
+			case token.GTR:
+				return b2i(x > y), true
+			case token.LEQ:
+				return b2i(x <= y), true
+			case token.GEQ:
+				return b2i(x >= y), true
+			case token.ADD:
+				return x + y, true
+			case token.SUB:
+				return x - y, true
+			}
+		}
+	}
+	return 0, false
+}
+
+// enumIterPaths enumerates paths from start that never take a back edge; a path ends at a Return ("return") or at
+// the source of a back edge ("backedge"). Branches whose condition is decided by evalOnPath are pruned.
+func enumIterPaths(fn *ssa.Function, start *ssa.BasicBlock, prefix []pathStep, maxPaths int, visit func(path []pathStep, kind string)) bool {
+	back := backEdges(fn)
+	n := 0
+	ok := true
+	var dfs func(b *ssa.BasicBlock, path []pathStep, known map[ssa.Value]bool)
+	dfs = func(b *ssa.BasicBlock, path []pathStep, known map[ssa.Value]bool) {
+		if !ok {
+			return
+		}
+		last := b.Instrs[len(b.Instrs)-1]
+		next := func(s *ssa.BasicBlock, step pathStep, kn map[ssa.Value]bool) {
+			p2 := append(append([]pathStep(nil), path...), step)
+			if back[edge{b, s}] {
+				n++
+				if n > maxPaths {
+					ok = false
+					return
+				}
+				visit(p2, "backedge")
+				return
+			}
+			dfs(s, p2, kn)
+		}
+		switch t := last.(type) {
+		case *ssa.Return:
+			n++
+			if n > maxPaths {
+				ok = false
+				return
+			}
+			visit(append(append([]pathStep(nil), path...), pathStep{Block: b}), "return")
+		case *ssa.Jump:
+			next(b.Succs[0], pathStep{Block: b}, known)
+		case *ssa.If:
+			cur := append(append([]pathStep(nil), path...), pathStep{Block: b})
+			if v, decided := evalOnPath(t.Cond, cur, known); decided {
+				if v != 0 {
+					next(b.Succs[0], pathStep{b, true}, known)
+				} else {
+					next(b.Succs[1], pathStep{b, false}, known)
+				}
+				return
+			}
+			for _, taken := range []bool{true, false} {
+				kn := map[ssa.Value]bool{}
+				for k, v := range known {
+					kn[k] = v
+				}
+				kn[t.Cond] = taken
+				atom, pol := condAtom(t.Cond)
+				kn[atom] = taken == pol
+				idx := 1
+				if taken {
+					idx = 0
+				}
+				next(b.Succs[idx], pathStep{b, taken}, kn)
+			}
+		}
+	}
+	dfs(start, prefix, map[ssa.Value]bool{})
+	return ok
+}
